@@ -379,6 +379,9 @@ class Interp:
             return ClassVal(name)
         if name in getattr(self.U, 'modules', {}):
             return ModuleVal(name, self.U.modules[name])
+        mc = getattr(self, 'module_consts', None)
+        if mc and name in mc:
+            return mc[name]          # a module-level NAME = <int | str | bool literal>, bound once and never rebound
         raise OutsideSubset('unknown name %s' % name)
 
     def callee_map(self):
@@ -549,19 +552,28 @@ class Interp:
                 return (not r) if isinstance(r, bool) else z3.Not(r)
             return r
         if isinstance(op, (ast.Lt, ast.LtE, ast.Gt, ast.GtE)):
+            oh = getattr(U, 'order_hook', None)
+            if oh is not None:
+                r = oh(self, op, a, b)
+                if r is not None:
+                    return r
             if a is None or b is None:
                 raise SymRaise('TypeError', 'ordering comparison with None')
             for side in (a, b):
                 sn = self.sort_of(side)
                 if sn in getattr(U, 'options', {}):
                     raise OutsideSubset('ordering comparison on option sort (unwrap first)')
-            if isinstance(op, ast.Lt):
-                return a < b
-            if isinstance(op, ast.LtE):
-                return a <= b
-            if isinstance(op, ast.Gt):
-                return a > b
-            return a >= b
+            try:
+                if isinstance(op, ast.Lt):
+                    return a < b
+                if isinstance(op, ast.LtE):
+                    return a <= b
+                if isinstance(op, ast.Gt):
+                    return a > b
+                return a >= b
+            except (TypeError, AttributeError, z3.Z3Exception) as e:
+                raise OutsideSubset('ordering comparison on %s and %s (%s)' % (self.sort_of(a) or type(a).__name__,
+                                                                              self.sort_of(b) or type(b).__name__, str(e)[:60]))
         if isinstance(op, (ast.In, ast.NotIn)):
             r = self.contains(b, a)
             if isinstance(op, ast.NotIn):
@@ -730,10 +742,34 @@ class Interp:
             if not isinstance(v, int):
                 raise OutsideSubset('non-constant list index')
             return v
+        def drop_ite(t, n):
+            # total drop by n nested conditionals (no forking): for larger constants than a path split per element allows
+            if n > 64:
+                raise OutsideSubset('slice bound %d too large for unrolling' % n)
+            for _ in range(n):
+                t = z3.If(U.is_nil(sn, t), t, U.tl(sn, t))
+            return t
+
+        def take_ite(t, n):
+            if n > 64:
+                raise OutsideSubset('slice bound %d too large for unrolling' % n)
+            if n == 0:
+                return U.nil(sn)
+            return z3.If(U.is_nil(sn, t), U.nil(sn), U.cons(sn, U.hd(sn, t), take_ite(U.tl(sn, t), n - 1)))
         if isinstance(sl, ast.Slice):
             lo, hi = const(sl.lower), const(sl.upper)
             if sl.step is not None:
                 raise OutsideSubset('slice step')
+            if kind == 'fwd' and lo is not None and hi is not None and 0 <= lo <= hi:
+                return z3.simplify(take_ite(drop_ite(base, lo), hi - lo))           # xs[lo:hi]
+            if kind == 'fwd' and hi is None and lo is not None and lo > 3:
+                return z3.simplify(drop_ite(base, lo))
+            if kind == 'fwd' and lo is None and hi is not None and hi > 3:
+                return z3.simplify(take_ite(base, hi))
+            if kind in ('stack', 'snoc') and hi is None and lo is not None and lo < 0:
+                return z3.simplify(take_ite(base, -lo))                             # xs[-k:]: the k entries nearest the top
+            if kind in ('stack', 'snoc') and lo is None and hi is not None and hi < -1:
+                return z3.simplify(drop_ite(base, -hi))                             # xs[:-k]
             if kind == 'fwd' and hi is None and lo is not None and lo >= 0:
                 # xs[lo:]  = drop lo (total: shorter lists give [])
                 t = base
